@@ -1,6 +1,6 @@
 (** C15 — facts about the completeness decision and the accumulation loop. *)
 From Coq Require Import String.
-From BV Require Import Base.Prelude Modes.Classes Modes.Complete gen.IncompleteTables.
+From BV Require Import Base.Prelude Modes.Classes Modes.Complete gen.C15Incomplete.
 
 (** ** The classification table *)
 
